@@ -183,24 +183,22 @@ mod int {
     }
 
     pub(crate) fn rem(dividend: VmInt, divisor: VmInt) -> RuntimeResult<VmInt, String> {
-        if divisor != 0 {
-            RuntimeResult::Return(dividend % divisor)
-        } else {
-            RuntimeResult::Panic(format!(
-                "attempted to calculate remainder of {} divided by 0",
-                dividend
-            ))
+        match dividend.checked_rem(divisor) {
+            Some(value) => RuntimeResult::Return(value),
+            None => RuntimeResult::Panic(format!(
+                "attempted to calculate remainder of {} divided by {}",
+                dividend, divisor
+            )),
         }
     }
 
     pub(crate) fn rem_euclid(dividend: VmInt, divisor: VmInt) -> RuntimeResult<VmInt, String> {
-        if divisor != 0 {
-            RuntimeResult::Return(dividend.rem_euclid(divisor))
-        } else {
-            RuntimeResult::Panic(format!(
-                "attempted to calculate euclidean remainder of {} divided by 0",
-                dividend
-            ))
+        match dividend.checked_rem_euclid(divisor) {
+            Some(value) => RuntimeResult::Return(value),
+            None => RuntimeResult::Panic(format!(
+                "attempted to calculate euclidean remainder of {} divided by {}",
+                dividend, divisor
+            )),
         }
     }
 
